@@ -9,6 +9,8 @@ Decided (DESIGN.md §C12): the explicit integrator Phreeqc::rk_kinetics is a *co
   C12.order4    the 8 order conditions up to order 4 hold for the embedded solution b* = b - dc, so the error estimate
                 dc.k is the difference of two consistent schemes (and sum dc == 0)
   C12.lowexit   the early exits (-runge_kutta 1/2/3, taken only when all stage rates are equal) use weights summing to 1
+  C12.partialstep  blocks that shorten the step before the early-exit tests also clear equal_rate (else a one-step exit
+                integrates only part of the interval)
   C12.step      step bookkeeping: the integrated time h_sum advances by h exactly once, only on the accepted branch
                 of the error test; a rejected step increments step_bad; the loop runs while h_sum < kin_time; the step is
                 clamped to the remaining time; rate_sim_time is set to start + kin_time after the loop
@@ -688,6 +690,39 @@ def step_rule(P, R, f, cfg, where):
     else:
         R.violation(rule, "clamp", "the next step size is not limited to the remaining time kin_time - h_sum (the integration could overshoot the requested time)",
                     line=errif[1], **where)
+    # partial steps disable the one-step early exits: the -runge_kutta 1/2/3 exits apply ONE step of size h and leave
+    # the loop, which integrates the whole interval only if h == kin_time.  Every block that gives h another value
+    # before the early-exit tests (i.e. outside the error-test statement, where the exits were already passed with
+    # equal_rate false) must therefore also clear equal_rate.
+    R.rule("C12.partialstep", "every block that shortens the step h before the early-exit tests also sets equal_rate = FALSE", minimum=2)
+    for x in T.walk(f["body"]):
+        if x[0] != "Compound" or contains(errif, x):
+            continue
+        hw = []
+        for st in x[2]:
+            if not T.is_node(st) or st[0] in T.STMT_KINDS:
+                continue
+            for tgt, how, line, n in T.writes(st):
+                if is_local(tgt, "h"):
+                    full = False
+                    if how == "=":
+                        r = n[4]
+                        while T.is_node(r) and r[0] == "Bin" and r[2] == "=":
+                            r = r[4]          # h = h_old = kin_time
+                        full = is_local(r, "kin_time")
+                    if not full:
+                        hw.append(line)
+        if not hw:
+            continue
+        clears = [n for st in x[2] if T.is_node(st) and st[0] not in T.STMT_KINDS
+                  for tgt, how, line, n in T.writes(st) if is_local(tgt, "equal_rate") and how == "=" and T.lit_value(n[4]) == 0]
+        inst = "block@h=%s" % ("divide" if any("step_divide" in T.text(st) for st in x[2] if T.is_node(st)) else "reduce")
+        if clears:
+            R.ok("C12.partialstep", inst, "h shortened at line %d, equal_rate cleared at line %d" % (hw[0], clears[0][1]))
+        else:
+            R.violation("C12.partialstep", inst, "the step h is shortened at line %d without clearing equal_rate: a -runge_kutta 1/2/3 early exit would "
+                        "then transfer only h/kin_time of the requested interval while time advances by kin_time" % hw[0], line=hw[0], **where)
+
     # final rate_sim_time = start + kin_time after the loop (post-dominates)
     fin = None
     for tgt, how, line, n in T.writes(f["body"]):
